@@ -14,7 +14,7 @@ EXTENDS Mint, TLC
 CONSTANTS Pools, MaxB
 
 PoolsQuick == (1 .. 12) \cup {365, 99999}
-PoolsThorough == (1 .. 400) \cup {3650, 36500, 99999, 500000}
+PoolsThorough == (1 .. 90) \cup {3650, 36500, 99999, 500000}
 PoolsW4 == {1, 9999, 10000, 36500, 3650000, 99999999, 200000000}
 
 Ratios == { << 1, 10 >>, << 1, 2 >>, << 1, 3 >>, << 9, 10 >>, << 1, 1 >> }
